@@ -778,10 +778,11 @@ namespace awkward {
     if (identities_.get() != nullptr) {
       identities = identities_.get()->getitem_carry_64(carry);
     }
+    // the content is never carried lazily: see validityerror
     return std::make_shared<ByteMaskedArray>(identities,
                                              parameters_,
                                              nextmask,
-                                             content_.get()->carry(carry, allow_lazy),
+                                             content_.get()->carry(carry, false),
                                              valid_when_);
   }
 
